@@ -3,6 +3,7 @@ package main
 import (
 	"vharness/c06"
 	"vharness/c09"
+	"vharness/c14"
 	"vharness/c15"
 	"vharness/vrt"
 )
@@ -18,5 +19,6 @@ func add(pkg string, m map[string]func(*vrt.Ctx)) {
 func init() {
 	add("c06", c06.Harnesses)
 	add("c09", c09.Harnesses)
+	add("c14", c14.Harnesses)
 	add("c15", c15.Harnesses)
 }
